@@ -13,7 +13,21 @@ let rec parse_ops toks = match toks with
   | "py" :: m :: f :: r -> CPy (bytes_of_hex m, bytes_of_hex f) :: parse_ops r
   | "apush" :: h :: r -> CAPush (bytes_of_hex h) :: parse_ops r
   | "aterm" :: r -> CATerm :: parse_ops r
+  | "del" :: r -> CMsg :: parse_ops r   (* placeholder: handled in run_ops, see below *)
   | t :: _ -> failwith ("bad op " ^ t)
+(* positions of the "del" operations (delete the message in progress: Cobs/EncDelete.v enc_delete_current) *)
+let rec del_marks toks = match toks with
+  | [] -> []
+  | "call" :: _ :: _ :: r -> false :: del_marks r
+  | "term" :: _ :: r -> false :: del_marks r
+  | "pushall" :: _ :: _ :: r -> false :: del_marks r
+  | "termall" :: _ :: r -> false :: del_marks r
+  | "msg" :: r -> false :: del_marks r
+  | "py" :: _ :: _ :: r -> false :: del_marks r
+  | "apush" :: _ :: r -> false :: del_marks r
+  | "aterm" :: r -> false :: del_marks r
+  | "del" :: r -> true :: del_marks r
+  | _ -> []
 let show_res r = match r with EInt n -> string_of_int (int_of_nat n) | EErr e -> string_of_int (errno e) | EFault -> "F"
 let show_st st buf =
   Printf.sprintf "|%d|%d|%d|%s" (int_of_nat st.edone) (int_of_nat st.escr)
@@ -39,8 +53,34 @@ let () =
   List.iter (fun line ->
     match split_ws line with
     | id :: v :: ops ->
+      let raw_ops = ops in
       let ops = parse_ops ops in
       let v = variant (int_of_string v) in
+      if not (List.mem true (del_marks raw_ops)) then begin
       Printf.printf "M %s %s\n" id (String.concat " " (List.map (show false) (crun v cinit ops)));
-      Printf.printf "S %s %s\n" id (String.concat " " (List.map (show true) (csrun v sinit ops)))
+      Printf.printf "S %s %s\n" id (String.concat " " (List.map (show true) (csrun v sinit ops))) end
+      else begin
+        (* step by step, the deletion request is applied to the encoder state between the modelled operations *)
+        let marks = del_marks raw_ops in
+        let st = ref cinit and sp = ref sinit in
+        let mt = ref [] and stk = ref [] in
+        List.iter2 (fun o isdel ->
+          if isdel then begin
+            (match v with
+             | FCobs _ ->
+               (match enc_delete_current !st.cst !st.cbuf with
+                | Some ((r, st'), buf') ->
+                  st := { cst = st'; cbuf = buf'; ccap = !st.ccap };
+                  mt := ("C:" ^ show_res r ^ show_st st' buf') :: !mt
+                | None -> mt := "C:skip" :: !mt)
+             | FText -> mt := "C:skip" :: !mt);
+            sp := { sfin = !sp.sfin; scur = []; sraw = !sp.sraw };
+            stk := "*" :: !stk
+          end else begin
+            let (s', ob) = cstep v !st o in st := s'; mt := show false ob :: !mt;
+            let (p', ob2) = cspec_step v !sp o in sp := p'; stk := show true ob2 :: !stk
+          end) ops marks;
+        Printf.printf "M %s %s\n" id (String.concat " " (List.rev !mt));
+        Printf.printf "S %s %s\n" id (String.concat " " (List.rev !stk))
+      end
     | _ -> ()) (read_lines ic)
